@@ -11,6 +11,7 @@ import (
 	"encoding/json"
 	"errors"
 	"fmt"
+	"html"
 	"io"
 	"math/rand"
 	"mime/multipart"
@@ -914,6 +915,20 @@ func c13RunKey(c *c13Case) (res Result) {
 	}
 	for i, s := range srcs {
 		res.Tags = append(res.Tags, "key:src-"+s.kind)
+		for _, k := range c13Candidates(s, located[i], 20) {
+			if u, err := url.PathUnescape(k); err == nil && u != k {
+				res.Tags = append(res.Tags, "key:percent-escape-in-"+s.kind+"-value")
+				break
+			}
+		}
+		for _, k := range c13Candidates(s, located[i], 20) {
+			if strings.Contains(k, "%") {
+				if _, err := url.PathUnescape(k); err != nil {
+					res.Tags = append(res.Tags, "key:malformed-percent-in-"+s.kind+"-value")
+					break
+				}
+			}
+		}
 		if len(located[i]) > 20 {
 			res.Tags = append(res.Tags, "key:over-limit")
 			if s.kind == "cookie" {
@@ -1839,6 +1854,56 @@ func c13GenBasic(r *rand.Rand) *c13Case {
 
 var c13Tokens = []string{"tok", "secret-key", "", "a b", "T0k/+=", "\xff\x00", "kéy", "Bearer tok", " tok", "tok "}
 
+// round 8: keys that LOOK encoded in some transfer syntax: percent escapes (valid, invalid, truncated, of a letter that
+// needs none, of `%` itself, twice), `+`, base64, character references, backslash escapes.  No lookup location decodes a
+// key: a cookie / header / parameter value is taken as net/http hands it over, and query / form values are encoded once
+// by the harness and decoded once by net/http - the validator must be shown these very bytes.
+var c13EncTokens = []string{"k%41z", "k%41z/%2Bx", "%74ok", "t%6fk", "tok%20", "%20tok", "100%", "a%2", "%zz", "%", "%25", "%2541", "a+b", "+tok",
+	"dG9r", "dG9r=", "tok%00", "%c3%a9", "%E9", "&amp;", "&#116;ok", "tok\\x41", "%74%6f%6b", "secret%2Dkey", "=?utf-8?b?dG9r?="}
+
+func c13Tok(r *rand.Rand) string {
+	if r.Intn(4) == 0 {
+		return c13Pick(r, c13EncTokens)
+	}
+	return c13Pick(r, c13Tokens)
+}
+
+// what a decoding reader would make of a key (each reading differs from the key itself)
+func c13Decodings(s string) []string {
+	var out []string
+	add := func(t string, err error) {
+		if err != nil || t == s {
+			return
+		}
+		for _, o := range out {
+			if o == t {
+				return
+			}
+		}
+		out = append(out, t)
+	}
+	u, err := url.PathUnescape(s)
+	add(u, err)
+	u, err = url.QueryUnescape(s)
+	add(u, err)
+	if err == nil {
+		u2, err2 := url.QueryUnescape(u)
+		add(u2, err2)
+	}
+	add(strings.ReplaceAll(s, "+", " "), nil)
+	for _, enc := range []*base64.Encoding{base64.StdEncoding, base64.RawStdEncoding, base64.URLEncoding} {
+		if b, err := enc.DecodeString(s); len(s) >= 4 {
+			add(string(b), err)
+		}
+	}
+	add(html.UnescapeString(s), nil)
+	if i := strings.IndexByte(s, '%'); i >= 0 {
+		add(s[:i], nil) // cut at the first escape
+	}
+	add(url.QueryEscape(s), nil) // the encoded form, as a reader that forgets to decode would present it
+	return out
+}
+
 func c13PrefixVariant(r *rand.Rand, pre string) string {
 	switch r.Intn(14) {
 	case 0:
@@ -1923,7 +1988,8 @@ func c13GenKey(r *rand.Rand) *c13Case {
 		c.Lookup = "" // default lookup
 	}
 	if r.Intn(60) == 0 {
-		c.Lookup = c13Pick(r, []string{"header", "query:key,cookie", ",", "headers:X-Api-Key", "Header:Authorization"})
+		c.Lookup = c13Pick(r, []string{"header", "query:key,cookie", ",", "headers:X-Api-Key", "Header:Authorization",
+			"query:", "header::Bearer ", "query:key, header:X-Api-Key", "cookie:,header:X-Api-Key"})
 	}
 	c.EH = c13Pick(r, []int{0, 0, 0, 0, 1, 1, 2, 403, 418})
 	c.Cont = r.Intn(3) == 0
@@ -1934,7 +2000,13 @@ func c13GenKey(r *rand.Rand) *c13Case {
 	}
 
 	// the intended key and its validator entry
-	tok := c13Pick(r, c13Tokens)
+	tok := c13Tok(r)
+	for _, s := range specs {
+		// a cookie value is where clients most often percent-encode on their own
+		if s.kind == "cookie" && r.Intn(3) == 0 {
+			tok = c13Pick(r, c13EncTokens)
+		}
+	}
 	c.Default = c13Pick(r, []int{0, 0, 0, 1, 500, 403})
 	c.Table = append(c.Table, c13Entry{U: []byte(tok), Out: c13Pick(r, []int{1, 1, 1, 0, 500, 403})})
 	add := func(k string) {
@@ -1953,6 +2025,13 @@ func c13GenKey(r *rand.Rand) *c13Case {
 		add(s.pre + tok)
 		add(strings.TrimRight(s.pre, " ") + tok)
 	}
+	// what a decoding reading of the key would present instead (mostly acceptable to the validator, so that a middleware
+	// which decodes lets the request through with a key that is nowhere in it)
+	for _, t2 := range c13Decodings(tok) {
+		if r.Intn(3) != 0 {
+			c.Table = append(c.Table, c13Entry{U: []byte(t2), Out: c13Pick(r, []int{1, 1, 1, 0, 403})})
+		}
+	}
 
 	nvals := func() int {
 		switch r.Intn(12) {
@@ -1969,7 +2048,7 @@ func c13GenKey(r *rand.Rand) *c13Case {
 		t := tok
 		// with several values only some carry the intended key (often the last ones, behind rejected keys)
 		if n > 1 && r.Intn(3) != 0 && i != n-1 {
-			t = c13Pick(r, c13Tokens)
+			t = c13Tok(r)
 		}
 		if pre == "" {
 			return t
@@ -2000,7 +2079,7 @@ func c13GenKey(r *rand.Rand) *c13Case {
 				c.Form = append(c.Form, c13KV{[]byte(s.name), []byte(genVal("", i, k))})
 			}
 			if r.Intn(4) == 0 { // Request.Form also contains the query values
-				c.Query = append(c.Query, c13KV{[]byte(s.name), []byte(c13Pick(r, c13Tokens))})
+				c.Query = append(c.Query, c13KV{[]byte(s.name), []byte(c13Tok(r))})
 			}
 		case "param":
 			safe := func(s string) string {
@@ -2387,6 +2466,16 @@ func c13Shrink(ci any) []any {
 		d.Cookie = append(d.Cookie[:i], d.Cookie[i+1:]...)
 		out = append(out, d)
 	}
+	for i, line := range c.Cookie {
+		// one pair of a `a=1; b=2` line dropped
+		if parts := strings.Split(line, "; "); len(parts) > 1 {
+			for j := range parts {
+				d := c13Clone(c)
+				d.Cookie[i] = strings.Join(append(append([]string(nil), parts[:j]...), parts[j+1:]...), "; ")
+				out = append(out, d)
+			}
+		}
+	}
 	if strings.Contains(c.Lookup, ",") {
 		parts := strings.Split(c.Lookup, ",")
 		for i := range parts {
@@ -2512,7 +2601,7 @@ func c13Mutate(r *rand.Rand, ci any) []any {
 func init() {
 	register(&Prop{
 		ID:             "C13",
-		Rule:           "sequential cases (compared with the model): half BasicAuth, half KeyAuth; plus 1/8 as many overlapping streams (oracle only): ONE middleware instance, 2-3 requests with multi-value headers / several lookup sources, request i stops inside its k-th validator call (channels, no timing) until request i+1 has been served completely, every request judged on its own by the same oracle. Sequential cases: Basic: Authorization values assembled from scheme (casings, truncated, foreign, with U+017F / U+212A / invalid bytes) + separator (space, none, other) + payload (std base64 of user:password incl. empty parts, colons in the password, non-UTF-8; unpadded, URL alphabet, CR/LF inside, truncated, trailing garbage, foreign character, non-zero trailing bits, raw), 0-3 header lines, validator table keyed by credentials (the intended pair + near misses such as the split at the last colon) with outcomes true/false/error((false|true),err). Key: 1-3 lookup sources (header with scheme prefix / explicit cut prefix / none, query, form, cookie, param), 0-23 values per location with prefix variants; for form / query sources the REST of the body / query string is partly malformed (bad %-escapes, semicolons, duplicate and 3-7 KB fields, a malformed field under the looked-up name) in front of or behind the well-formed key, multipart/form-data bodies with mixed-case media types, extra parameters and odd boundaries, urlencoded media-type spellings, non-form media types, PUT/PATCH/DELETE/GET with a body, body combined with query string, ErrorHandler absent / returns nil / passes / returns HTTPError, ContinueOnIgnoredError. Non-trivial = the validator was called or the base64 text was rejected; distinct = distinct model op lines. Round 4: both middlewares through ...WithConfig or the convenience constructors BasicAuth(fn) / KeyAuth(fn) (rarely with a nil validator: constructor panic), default or custom Skipper (skips the requests carrying a marker header, also inside the overlapping streams), request methods incl. OPTIONS / HEAD / TRACE / PROPFIND; Basic: user / password with CR, LF, blanks, NUL, NBSP, quotes, %20 at their borders, validator table holding every normalised reading (trimmed, lower-cased, unescaped) mostly as acceptable, the WWW-Authenticate challenge compared for default / custom realms; Key: route with 22 path parameters (looked-up name at indices 0, 5, 18-21), the key at popular locations that are NOT configured (query access_token / token / key / api_key, headers X-Api-Key / X-Auth-Token / Proxy-Authorization, cookies, form fields), ErrKeyAuthMissing unwrapped inside the ErrorHandler; round 5: 1/6 as many cases with 2-3 instances on the path of ONE request (e.Use + group + route level): BasicAuth twice / three times, KeyAuth behind BasicAuth on the same Authorization header (cut-prefix `Basic `), KeyAuth twice with the sources reordered or narrowed, BasicAuth behind KeyAuth, inner validators that mostly accept what the outer one accepts, per-instance Skipper / ErrorHandler / constructor; a pass-through marker behind every instance tells whether it passed the request on, and each instance is judged by the unchanged oracle on the request AS SENT (accepted well-formed credentials must pass THIS instance; its validator calls must be literal; an instance that was not reached must not have been asked); round 6: 1/3 of the Basic and Key requests carry decoy headers (the complete shape of a CORS preflight: OPTIONS + Access-Control-Request-Method + Origin; of a websocket upgrade; X-Requested-With, X-Forwarded-*, X-Forwarded-User, Remote-User, X-Http-Method-Override, probe User-Agents, Sec-Fetch-*), the whole request head is the BasicAuth model's input; for query / form sources the looked-up pairs are spelled non-canonically in 1/3 of the cases (percent-encoded letters in the NAME, upper / lower hex, `%20` vs `+`, bare name for an empty value, raw values), cookie values quoted; KeyAuth stacks whose instances differ only in AuthScheme (one Authorization line per scheme); Mutate hook (validator accepting / refusing everything) for the failing-input search; round 7: lookups with an explicit EMPTY cut-prefix (`header:Authorization:`, `header:X-Api-Key:`, `header:Authorization::x`, lower-case name) crossed with every AuthScheme; for 1/12 of the requests a middleware in front has already started the response (WriteHeader / Write / WriteHeader+Flush, 200 / 202 / 206 / 404 / 500) before the auth middleware runs; plus 1/10 as many cases through the exported CreateExtractors(lookups) (no defaults, empty string, malformed strings), every extractor applied to the request inside a handler",
+		Rule:           "sequential cases (compared with the model): half BasicAuth, half KeyAuth; plus 1/8 as many overlapping streams (oracle only): ONE middleware instance, 2-3 requests with multi-value headers / several lookup sources, request i stops inside its k-th validator call (channels, no timing) until request i+1 has been served completely, every request judged on its own by the same oracle. Sequential cases: Basic: Authorization values assembled from scheme (casings, truncated, foreign, with U+017F / U+212A / invalid bytes) + separator (space, none, other) + payload (std base64 of user:password incl. empty parts, colons in the password, non-UTF-8; unpadded, URL alphabet, CR/LF inside, truncated, trailing garbage, foreign character, non-zero trailing bits, raw), 0-3 header lines, validator table keyed by credentials (the intended pair + near misses such as the split at the last colon) with outcomes true/false/error((false|true),err). Key: 1-3 lookup sources (header with scheme prefix / explicit cut prefix / none, query, form, cookie, param), 0-23 values per location with prefix variants; for form / query sources the REST of the body / query string is partly malformed (bad %-escapes, semicolons, duplicate and 3-7 KB fields, a malformed field under the looked-up name) in front of or behind the well-formed key, multipart/form-data bodies with mixed-case media types, extra parameters and odd boundaries, urlencoded media-type spellings, non-form media types, PUT/PATCH/DELETE/GET with a body, body combined with query string, ErrorHandler absent / returns nil / passes / returns HTTPError, ContinueOnIgnoredError. Non-trivial = the validator was called or the base64 text was rejected; distinct = distinct model op lines. Round 4: both middlewares through ...WithConfig or the convenience constructors BasicAuth(fn) / KeyAuth(fn) (rarely with a nil validator: constructor panic), default or custom Skipper (skips the requests carrying a marker header, also inside the overlapping streams), request methods incl. OPTIONS / HEAD / TRACE / PROPFIND; Basic: user / password with CR, LF, blanks, NUL, NBSP, quotes, %20 at their borders, validator table holding every normalised reading (trimmed, lower-cased, unescaped) mostly as acceptable, the WWW-Authenticate challenge compared for default / custom realms; Key: route with 22 path parameters (looked-up name at indices 0, 5, 18-21), the key at popular locations that are NOT configured (query access_token / token / key / api_key, headers X-Api-Key / X-Auth-Token / Proxy-Authorization, cookies, form fields), ErrKeyAuthMissing unwrapped inside the ErrorHandler; round 5: 1/6 as many cases with 2-3 instances on the path of ONE request (e.Use + group + route level): BasicAuth twice / three times, KeyAuth behind BasicAuth on the same Authorization header (cut-prefix `Basic `), KeyAuth twice with the sources reordered or narrowed, BasicAuth behind KeyAuth, inner validators that mostly accept what the outer one accepts, per-instance Skipper / ErrorHandler / constructor; a pass-through marker behind every instance tells whether it passed the request on, and each instance is judged by the unchanged oracle on the request AS SENT (accepted well-formed credentials must pass THIS instance; its validator calls must be literal; an instance that was not reached must not have been asked); round 6: 1/3 of the Basic and Key requests carry decoy headers (the complete shape of a CORS preflight: OPTIONS + Access-Control-Request-Method + Origin; of a websocket upgrade; X-Requested-With, X-Forwarded-*, X-Forwarded-User, Remote-User, X-Http-Method-Override, probe User-Agents, Sec-Fetch-*), the whole request head is the BasicAuth model's input; for query / form sources the looked-up pairs are spelled non-canonically in 1/3 of the cases (percent-encoded letters in the NAME, upper / lower hex, `%20` vs `+`, bare name for an empty value, raw values), cookie values quoted; KeyAuth stacks whose instances differ only in AuthScheme (one Authorization line per scheme); Mutate hook (validator accepting / refusing everything) for the failing-input search; round 8: 1/4 of the keys (1/2 where a cookie source is configured) LOOK encoded - percent escapes (valid, of letters that need none, of `%` itself, twice, malformed, truncated, %00, UTF-8 sequences), `+`, base64, character references, backslash escapes, a MIME encoded-word - at every lookup location (cookie / header values taken as net/http hands them over, query / form values encoded once by the harness), and the validator table mostly ACCEPTS what a decoding reader would present instead (PathUnescape, QueryUnescape once / twice, `+` as blank, base64, entity-decoded, cut at the first escape, the still-encoded form); round 7: lookups with an explicit EMPTY cut-prefix (`header:Authorization:`, `header:X-Api-Key:`, `header:Authorization::x`, lower-case name) crossed with every AuthScheme; for 1/12 of the requests a middleware in front has already started the response (WriteHeader / Write / WriteHeader+Flush, 200 / 202 / 206 / 404 / 500) before the auth middleware runs; plus 1/10 as many cases through the exported CreateExtractors(lookups) (no defaults, empty string, malformed strings), every extractor applied to the request inside a handler",
 		New:            func() any { return &c13Case{} },
 		Gen:            c13Gen,
 		Run:            c13Run,
